@@ -598,6 +598,7 @@ def fs_oracle(script, trace, conf):
     last = trace.split(";")[-1]
     live = last.split("/")[-1]
     got = [] if live in ("none", "empty") else sorted(live.split(","))
+    if not want and live != "none": return "configured set is empty but the watcher was not released" + (" (after an injected registration failure)" if everfail else "")
     if everfail:
         # C13 / C15 with injected faults: "a path that fails to register is reported (once per attempt) without preventing the others".
         # (1) paths never named by a fault behave as in a fault-free run; (2) in a segment without unwatch calls the number of errors
@@ -663,7 +664,7 @@ def c13_streams(ctx):
 
 PLANS["C13"] = dict(
     modules=["Wx.Fs.C13", "Wx.Fs.C13f"],
-    theorems=["Fw.iteration_faults", "Fw.others_are_registered", "Fw.errors_once_per_attempt", "Fw.failing_path_stays_out", "Fw.dropFold_errs", "Fw.c13_converges", "Fw.J_runWorker", "Fw.J_iteration", "Fw.J_applyCfg", "Fw.J_addHook", "Fw.J_init", "Fw.iteration_core", "Fw.f8a_witness", "Fw.f8b_witness"],
+    theorems=["Fw.iteration_faults", "Fw.empty_set_releases", "Fw.others_are_registered", "Fw.errors_once_per_attempt", "Fw.failing_path_stays_out", "Fw.dropFold_errs", "Fw.c13_converges", "Fw.J_runWorker", "Fw.J_iteration", "Fw.J_applyCfg", "Fw.J_addHook", "Fw.J_init", "Fw.iteration_core", "Fw.f8a_witness", "Fw.f8b_witness"],
     bins=[("lib", ["wxfs"])],
     streams=c13_streams,
     sources=["crates/lib/src/sources/fs.rs", "crates/lib/src/config.rs", "crates/lib/src/changeable.rs"],
@@ -1104,7 +1105,10 @@ PLANS["C08"] = dict(
 # ------------------------------------------------------------------------------------------------
 # C05 on-busy policy (CLI action handler)
 
-C05_FIXED = """dn --on-busy-update=do-nothing E100 init;a:30;chg;a:30;chg;a:200;chg;a:300
+C05_FIXED = """mx1 --on-busy-update=restart,--stop-timeout=50ms I,I a:10;mix:10;a:100;mix:1;a:300
+mx2 --on-busy-update=queue E50,E50 init;a:10;mix:12;a:200
+mx3 --on-busy-update=do-nothing E20 a:5;mix:10;a:100;mix:1;a:100
+dn --on-busy-update=do-nothing E100 init;a:30;chg;a:30;chg;a:200;chg;a:300
 rs --on-busy-update=restart S20 init;a:30;chg;a:100;chg;a:300
 rs2 --on-busy-update=restart,--stop-timeout=50ms I init;a:30;chg;a:300
 rs3 -r,--stop-signal=SIGINT,--stop-timeout=80ms I,S10 init;a:30;chg;a:40;chg;a:300
@@ -1145,7 +1149,8 @@ def c05_cases(seed, n):
         ops = []
         if r.random() < 0.85: ops.append("init"); ops.append(r.choice(["y", "a:10", "a:30", "a:50", "a:100"]))
         for _ in range(r.randint(1, 6)):
-            ops.append("chg")
+            # one change in eight shares its action with a signal that does not quit (the change must still take its course)
+            ops.append("chg" if r.random() < 0.875 else "mix:" + r.choice(["1", "10", "12"]))
             # gaps: back-to-back, inside a run, at the moment of exit (multiples of the exit delays), during the grace period
             ops.append(r.choice(["y", "a:0", "a:5", "a:10", "a:20", "a:30", "a:50", "a:50", "a:100", "a:100", "a:150", "a:400"]))
         ops.append("a:" + r.choice(["300", "600", "1500"]))
@@ -1169,33 +1174,41 @@ def c05_oracle(case, trace):
             if live: out.append(f"runs overlap: {p[2]} spawned at {p[0]} ms while {sorted(live)} not reaped")
             live.add(p[2])
         elif p[1] == "reaped": live.discard(p[2])
-    if mode == "do-nothing" and any(p[1] in ("signal", "kill") for p in ev): out.append("do-nothing mode signalled or killed the command")
+    has_mix = any(o.startswith("mix:") for o in ops.split(";"))
+    if mode == "do-nothing" and any(p[1] in (("kill",) if has_mix else ("signal", "kill")) for p in ev): out.append("do-nothing mode signalled or killed the command")
     if mode == "signal" and any(p[1] == "kill" for p in ev): out.append("signal mode killed the command")
-    if mode == "queue" and any(p[1] in ("signal", "kill") for p in ev): out.append("queue mode signalled or killed the command")
+    if mode == "queue" and any(p[1] in (("kill",) if has_mix else ("signal", "kill")) for p in ev): out.append("queue mode signalled or killed the command")
     # the configured signal (documented for --stop-signal / --signal): signal mode sends --stop-signal, else --signal, else TERM;
     # restart mode stops with --stop-signal, else TERM
     SIGNUM = {"SIGHUP": 1, "SIGINT": 2, "SIGQUIT": 3, "SIGUSR1": 10, "SIGUSR2": 12, "SIGTERM": 15}
     stop_sig = next((SIGNUM.get(f.split("=")[1]) for f in fl if f.startswith("--stop-signal=")), None)
     sig = next((SIGNUM.get(f.split("=")[1]) for f in fl if f.startswith("--signal=")), None)
     want = {"signal": stop_sig or sig or 15, "restart": stop_sig or 15}.get(mode)
+    passed_on = {o.split(":")[1] for o in ops.split(";") if o.startswith("mix:")}     # signals a mixed action hands to the command as they are
     if want is not None:
-        bad = sorted({p[3] for p in ev if p[1] == "signal" and len(p) > 3 and p[3] != str(want)})
+        bad = sorted({p[3] for p in ev if p[1] == "signal" and len(p) > 3 and p[3] != str(want) and p[3] not in passed_on})
         if bad: out.append(f"{mode} mode sent signal {','.join(bad)}, configured is {want}")
     # freshness: the last change is followed by a run (attempt) that started after it — restart always; queue when every run ends by itself soon
     now = 0; last_chg = None
     for o in ops.split(";"):
         if o.startswith("a:"): now += int(o[2:])
-        elif o in ("chg", "init"): last_chg = now
+        elif o in ("chg", "init") or o.startswith("mix:"): last_chg = now
     final = int(ops.split(";")[-1][2:])
     ends_soon = all(b[0] == "E" and int(b[1:]) <= 200 for b in behs.split(","))
     tmo = 10000
     for f in fl:
         if f.startswith("--stop-timeout="): tmo = int(f.split("=")[1][:-2])
     # --delay-run sleeps inside the job task once per event: everything is pushed back by up to (events x delay)
-    nev = sum(1 for o in ops.split(";") if o in ("chg", "init"))
+    nev = sum(1 for o in ops.split(";") if o in ("chg", "init") or o.startswith("mix:"))
     backlog = 0
     for f in fl:
         if f.startswith("--delay-run="): backlog = nev * int(f.split("=")[1][:-2])
+    first_chg = None; t = 0
+    for o in ops.split(";"):
+        if o.startswith("a:"): t += int(o[2:])
+        elif o in ("chg", "init") or o.startswith("mix:"): first_chg = t; break
+    if first_chg is not None and final >= first_chg + backlog + 50 and not any(p[1] in ("spawn", "spawnfail") for p in ev):
+        out.append(f"a change while the command was idle (at {first_chg} ms) did not start it")
     if last_chg is not None and ((mode == "restart" and (final >= tmo + backlog + 250 or (not live and final >= backlog + 250))) or (mode == "queue" and ends_soon and final >= 600 + backlog)):
         if not any(p[1] in ("spawn", "spawnfail") and int(p[0]) >= last_chg for p in ev):
             out.append(f"{mode} mode: the last change (at {last_chg} ms) is not followed by a run that started after it")
@@ -1220,7 +1233,7 @@ def cliquit_cases(seed, n):
         ops = []
         if r.random() < 0.85: ops.append("init"); ops.append(r.choice(["y", "a:10", "a:30", "a:50", "a:100"]))
         for _ in range(r.randint(0, 3)):
-            ops.append(r.choice(["chg", "chg", "sig:10", "sig:1", "sig:12"]))
+            ops.append(r.choice(["chg", "chg", "sig:10", "sig:1", "sig:12", "mix:10", "mix:15"]))
             ops.append(r.choice(["y", "a:0", "a:5", "a:20", "a:50", "a:100", "a:150"]))
         ops.append("sig:" + r.choice(["15", "2"]))
         for _ in range(r.randint(0, 2)):
@@ -1239,8 +1252,8 @@ def cliquit_oracle(case, trace):
     mode = next((f.split("=")[1] for f in fl if f.startswith("--on-busy-update=")), "do-nothing")
     for o in ops.split(";"):
         if o.startswith("a:"): now += int(o[2:])
-        elif o in ("sig:15", "sig:2") and tq is None: tq = now
-        elif o == "chg" and tq is None: nchg += 1
+        elif o in ("sig:15", "sig:2", "mix:15", "mix:2") and tq is None: tq = now
+        elif (o == "chg" or o.startswith("mix:")) and tq is None: nchg += 1
     if tq is None: return []
     # the property's bound: the grace periods then in effect — graceful restarts still pending (at most one per earlier change in
     # restart mode, each with the stop timeout) plus the quit's own
